@@ -618,28 +618,39 @@ func (c *ctx) explore(buf []byte) (states, transitions int64) {
 	c.base = uintptr(unsafe.Pointer(unsafe.SliceData(buf)))
 	type st struct {
 		hist []int
+		snap string // raw bytes of the Decoder in this state (only when it can be restored by copying, see below)
 	}
+	// The Decoder's whole state is its own struct. As long as that struct holds no pointer besides the input slice, a
+	// state is restored exactly by copying the recorded bytes into a fresh Decoder over the same buffer; this replaces
+	// the replay of the whole history for every transition. With any other pointer-carrying field (a scratch slice added
+	// by a change) the history is replayed as before, since a byte copy would share that memory between states.
+	restorable := len(ptrWords) == 0
 	stateKey := stateKey
 	if c.canon {
 		stateKey = canonKey
 	}
 	seen := map[string]bool{}
 	var queue []st
-	fresh := func(hist []int) (d *csproto.Decoder) {
+	raw := func(d *csproto.Decoder) string { return string(unsafe.Slice((*byte)(unsafe.Pointer(d)), decSize)) }
+	fresh := func(s *st) (d *csproto.Decoder) {
 		d = csproto.NewDecoder(buf)
-		for _, oi := range hist {
+		if restorable && s.snap != "" {
+			copy(unsafe.Slice((*byte)(unsafe.Pointer(d)), decSize), s.snap)
+			return d
+		}
+		for _, oi := range s.hist {
 			c.apply(d, &c.ops[oi], false)
 		}
 		return d
 	}
-	d0 := fresh(nil)
+	d0 := fresh(&st{})
 	seen[stateKey(d0, c.base)] = true
-	queue = append(queue, st{})
+	queue = append(queue, st{snap: raw(d0)})
 	for qi := 0; qi < len(queue); qi++ {
 		s := queue[qi]
 		for oi := range c.ops {
 			o := &c.ops[oi]
-			d := fresh(s.hist)
+			d := fresh(&s)
 			off, mode := d.Offset(), d.Mode()
 			if c.sh.Trace {
 				c.sh.Cur(o.name+"/"+mode.String(), fmt.Sprintf("buf=%x/o=%d/%s/%s", buf, off, mode, o.name))
@@ -665,7 +676,7 @@ func (c *ctx) explore(buf []byte) (states, transitions int64) {
 				}
 				seen[k] = true
 				h := append(append([]int{}, s.hist...), oi)
-				queue = append(queue, st{h})
+				queue = append(queue, st{hist: h, snap: raw(d)})
 			}
 		}
 	}
